@@ -91,6 +91,13 @@ CHECKS.update({
         "the three BOLT slot-packing variants; conv2d over image 2..7 (2..9) x kernel up to 2x3 x channel/batch combinations incl. height and width tiling; every result must equal Y = XW + B mod t resp. the valid cross-correlation.",
    ref="DESIGN.md 4/C20", note="Trusted: TLC, spec/MatMul.tla. BFV only (the CKKS variants and the RNS-plaintext wrapper are not exercised); the block search / index maps are covered functionally, not by a refinement model."),
 })
+CHECKS.update({
+ "C10": dict(cat="model_checking", tech="trace validation (impl->spec): per-coefficient results of the real RNS routines, on inputs built from known integers, checked by TLC against the integer post-conditions of spec/Rns.tla over BigNat",
+   text="CRT compose/decompose exhaustively for four tiny bases (single and array form) and on boundary/random integers for bases of 1..4 (quick) / 1..8 (thorough) primes of 18..60 bits in mixed order; "
+        "m~ base conversion (value + a*Q with one a < k), Montgomery reduction, fast floor (floor(x/Q) - a), Shenoy-Kumaresan conversion of signed values, divide-and-round by the last prime in coefficient and NTT form, "
+        "the BGV mod-t variant in both forms, scale-and-round and mod-t decryption with noise up to Q/4: ~1200 (quick) events, each an exact BigNat identity with untrusted quotient hints.",
+   ref="DESIGN.md 4/C10", note=ARITH_NOTE + " The plain BaseConverter is not public; it is observed through the routines built on it."),
+})
 NA_REASON = "check not built yet in this round (work in progress; see DESIGN.md section 8)"
 EXTRA = os.path.join(ROOT, "lib", "manifest_extra.json")
 
